@@ -20,6 +20,7 @@ import (
 	"path/filepath"
 	"regexp"
 	"sort"
+	"strconv"
 	"strings"
 	"sync"
 	"time"
@@ -182,7 +183,9 @@ var menuRE = regexp.MustCompile(`href="(\?[^"]*)"[^>]*>\s*([^<]*?)\s*<`)
 func roundTrips() {
 	params := []struct{ k, v string }{{"f", "foo"}, {"i", "bar"}, {"h", "hid"}, {"s", "shw"}, {"sf", "frm"}, {"tf", "k:x"}, {"ti", "k:y"}, {"ts", "k"}, {"th", "j"}, {"prunefrom", "prn"},
 		{"n", "7"}, {"nf", "0.25"}, {"ef", "0.5"}, {"trim", "f"}, {"trim", "t"}, {"calltree", "t"}, {"dropneg", "t"}, {"rel", "t"}, {"unit", "ms"}, {"compact", "t"}, {"intel", "t"}, {"mean", "t"},
-		{"noinlines", "t"}, {"showcolumns", "t"}, {"g", "lines"}, {"g", "files"}, {"s", ""}, {"sort", "cum"}, {"f", "a b&c=d"}, {"f", "é\"<"}, {"n", "0"}, {"nf", "0"}}
+		{"noinlines", "t"}, {"showcolumns", "t"}, {"g", "lines"}, {"g", "files"}, {"s", ""}, {"sort", "cum"}, {"f", "a b&c=d"}, {"f", "é\"<"}, {"n", "0"}, {"nf", "0"},
+		// fractions with many significant digits, very small ones: restored exactly
+		{"nf", "0.0001234567"}, {"ef", "0.12345678"}, {"nf", "1e-07"}, {"ef", "0.30000000000000004"}, {"nf", "0.1234567890123"}}
 	reset()
 	withServer(func(s *server) {
 		for i, p := range params {
@@ -220,7 +223,13 @@ func roundTrips() {
 					if isDefault(k, v[0]) {
 						continue
 					}
-					if len(got[k]) == 0 || got[k][0] != v[0] {
+					same := len(got[k]) > 0 && got[k][0] == v[0]
+					if !same && len(got[k]) > 0 && (k == "nf" || k == "ef") {
+						a, e1 := strconv.ParseFloat(got[k][0], 64)
+						b, e2 := strconv.ParseFloat(v[0], 64)
+						same = e1 == nil && e2 == nil && a == b
+					}
+					if !same {
 						run.Violate("roundtrip", "option-lost:"+k, fmt.Sprintf("saved with %s=%q; the menu link for it is %q", k, v[0], link), saveURL, nil)
 					}
 				}
